@@ -46,7 +46,7 @@ def main():
     meta["confirmed"] = confirmed
     meta["checks"] = {}
     scratch = "--scratch" in sys.argv  # run the checks against a scratch worktree instead of /repo (when /repo is in use)
-    if confirmed:
+    if confirmed and "--no-check" not in sys.argv:
         if scratch:
             repo = "/tmp/seedrepo-%d" % os.getpid()
             sh("git -C /repo worktree add -q --detach %s HEAD" % repo)
